@@ -11,6 +11,7 @@ pub mod c06;
 pub mod c07;
 pub mod c08;
 pub mod c09;
+pub mod c10;
 pub mod c11;
 pub mod c12;
 pub mod elfgen;
@@ -34,6 +35,7 @@ pub fn dispatch(id: &str, ctx: &Ctx) -> Option<i32> {
         "C07" => c07::run(ctx),
         "C08" => c08::run(ctx),
         "C09" => c09::run(ctx),
+        "C10" => c10::run(ctx),
         "C11" => c11::run(ctx),
         "C12" => c12::run(ctx),
         "C16" => c16::run(ctx),
